@@ -2,7 +2,7 @@
 tie: T-gen (cxx2coq on BucketOpen2N2 / BucketOpenN1 / BucketOpen8) + translator validation against the real code."""
 import os
 
-GEN = ['gen_open2n2.json', 'gen_openn1.json', 'gen_open8.json']
+GEN = ['gen_open2n2.json', 'gen_openn1.json', 'gen_open8.json', 'gen_base.json']
 
 def gen_cases(ctx, scale):
     r = ctx.rng
@@ -46,6 +46,26 @@ def gen_cases(ctx, scale):
             cases.append('cov %s %d %d' % (kind, n, r.below(2 ** n)))
     return cases
 
+def gen_table_cases(ctx, scale):
+    """real HashSet with Open2N2<3> / Open8 buckets vs the table-level model OpenTable.v (bucket contents + bounds)"""
+    r = ctx.rng; out = []
+    for i in range(120 * scale):
+        kind = r.choice(['o2', 'o8']); n = r.choice([4, 4, 5, 6]); cap = 3 if kind == 'o2' else 7
+        maxm = {4: 40, 5: 80, 6: 160}[n] if kind == 'o2' else {4: 70, 5: 140, 6: 280}[n]
+        m = r.range(1, maxm); mode = r.below(5)
+        keys = list(range(1, 4 * m)); r.shuffle(keys); keys = keys[:m]
+        homes = [r.below(2 ** n) for _ in range(r.range(1, 3))]
+        kh = []
+        for k in keys:
+            if mode == 0: hc = homes[0]                                   # constant home bucket: longest probe chains
+            elif mode == 1: hc = r.choice(homes) + (r.below(1 << 20) << n)  # few homes, varying high bits
+            elif mode == 2: hc = r.next()                                 # uniform
+            elif mode == 3: hc = (k * 0x9E3779B97F4A7C15) & (2 ** 64 - 1)
+            else: hc = k & 3
+            kh.append('%d:%d' % (k, hc))
+        out.append('tblm %s %d %d %s' % (kind, n, cap, ' '.join(kh)))
+    return out
+
 def oracle(ctx, cases, impl_lines):
     """the property itself, evaluated on the real code's outputs (independent of the Coq model)"""
     bad = []
@@ -64,6 +84,12 @@ def oracle(ctx, cases, impl_lines):
                 if bound < max(ps + [0]):
                     bad.append((c, out, 'OpenN1 bound %d < max probe %d' % (bound, max(ps + [0]))))
                 if max(ps + [0]) > 7: ctx.nontrivial.add(c)
+            elif w[0] == 'tblm':
+                if out.strip() != 'skip':
+                    if 'found=true' not in out:
+                        bad.append((c, out, 'a key inserted into the open-addressing table is not found'))
+                    # a bound > 7 (Open8) / any displaced element makes the case non-trivial
+                    if any(int(x.split(':')[2]) > 0 for x in out.split(' ')[0].split(';') if x): ctx.nontrivial.add(c[:200])
             elif w[0] == 'cov':
                 if int(out) != 2 ** int(w[2]):
                     bad.append((c, out, 'probe sequence visits %s of %d buckets' % (out, 2 ** int(w[2]))))
@@ -104,7 +130,16 @@ def run(ctx):
     cases = gen_cases(ctx, scale)
     have_model = ctx.stages.get('prove', {}).get('ok') and ctx.extract()
     if have_model:
-        corr_cases = [c for c in cases if not c.startswith('cov')]
+        tcases = gen_table_cases(ctx, scale)
+        path = os.path.join(ctx.build, 'tbl.cases'); open(path, 'w').write('\n'.join(tcases) + '\n')
+        rc0, l0, e0 = ctx.run_lines([harness], path)
+        tcases = [c for c, o in zip(tcases, l0) if o.strip() != 'skip'] if rc0 == 0 else tcases
+        mism_t, _ = ctx.correspond('table-model-vs-HashSet', tcases, [harness], [ctx.model_exe])
+        ctx.tie_obligations.append({'name': 'OpenTable.v model == real HashSet<Open2N2<3>|Open8> bucket contents and bounds on %d insertion histories' % len(tcases), 'ok': not mism_t})
+        for (i, c, a, b) in mism_t[:2]:
+            ctx.violation('table-level model and real HashSet disagree', {'case': c, 'impl': a, 'model': b}, found_input=True)
+        cases = cases + tcases
+        corr_cases = [c for c in cases if not c.startswith('cov') and not c.startswith('tblm')]
         mism, _ = ctx.correspond('translator-validation', corr_cases, [harness], [ctx.model_exe])
         ctx.tie_obligations.append({'name': 'generated Gallina == real C++ on %d cases' % len(corr_cases), 'ok': not mism})
         for (i, c, a, b) in mism[:3]:
@@ -124,7 +159,7 @@ def run(ctx):
         ctx.violation(why, {'case': c, 'impl_output': out, 'cmd': 'echo "%s" | build/C13/harness' % c}, found_input=True)
     for c in cases[::max(1, len(cases) // 6)][:6]:
         ctx.add_sample(c)
-    ctx.coverage['input_distribution'] = {k: sum(1 for c in cases if c.startswith(k)) for k in ('o2', 'n1', 'nx', 'cov')}
+    ctx.coverage['input_distribution'] = {k: sum(1 for c in cases if c.startswith(k)) for k in ('o2', 'n1', 'nx', 'cov', 'tblm')}
     return ctx.finish(rule=RULE)
 
 RULE = ('cases = boundary grid (0,1,2^k-1,2^k,2^k+1 up to 2^63) x all byte states (translator validation) + random update '
